@@ -268,6 +268,29 @@ class Server:
             ctl._exv = True
             ctl._orig = {n: getattr(ctl, n) for n in ('DB', 'MemPool', 'SessionManager', 'Notifications')}
             ctl._origbp = bpmod.BlockProcessor
+        def note_exc(where, e):
+            import traceback
+            if srv.task_exc is None:
+                srv.task_exc = f'[{where}] ' + ''.join(traceback.format_exception(type(e), e, e.__traceback__))[-3000:]
+
+        def guard(method_name, where):
+            # record any exception (other than cancellation) escaping a long-running server task
+            def deco(cls):
+                orig = getattr(cls, method_name)
+
+                async def wrapper(self_, *a, **k):
+                    try:
+                        return await orig(self_, *a, **k)
+                    except asyncio.CancelledError:
+                        raise
+                    except BaseException as e:    # noqa
+                        note_exc(where, e)
+                        raise
+                wrapper.__name__ = method_name
+                wrapper.__qualname__ = f'{cls.__name__}.{method_name}'
+                setattr(cls, method_name, wrapper)
+                return cls
+            return deco
         for name, cls in ctl._orig.items():
             def mk(cls, name):
                 class Rec(cls):
@@ -276,6 +299,10 @@ class Server:
                         cap[name] = self_
                 Rec.__name__ = cls.__name__
                 Rec.__qualname__ = cls.__qualname__
+                if name == 'MemPool':
+                    guard('keep_synchronized', 'MemPool.keep_synchronized')(Rec)
+                if name == 'SessionManager':
+                    guard('serve', 'SessionManager.serve')(Rec)
                 return Rec
             setattr(ctl, name, mk(cls, name))
 
@@ -302,6 +329,7 @@ class Server:
                 srv.events.append((-1, 'backed_up', {'height': self_.state.height}))
                 return r
         RecBP.__name__ = 'BlockProcessor'
+        guard('fetch_and_process_blocks', 'BlockProcessor.fetch_and_process_blocks')(RecBP)
         bpmod.BlockProcessor = RecBP
         self.controller = ctl.Controller(self.env)
         if real_run:
@@ -339,7 +367,9 @@ class Server:
         return self.cap.get('Notifications')
 
     def check_task(self):
-        '''If the serve task died, remember why.'''
+        '''If the serve task (or one of the long-running tasks inside it) died, remember why.'''
+        if self.task_exc is not None:
+            return self.task_exc
         if self.task.done() and self.task_exc is None and not self.task.cancelled():
             e = self.task.exception()
             if e is not None:
@@ -353,7 +383,7 @@ class Server:
         while True:
             if cond():
                 return True
-            if self.task.done():
+            if self.task.done() or self.task_exc is not None:
                 self.check_task()
                 return False
             if loop.time() > end:
